@@ -78,6 +78,17 @@ def run(chk):
         single = np.asarray(poly.is_inside(Qp[k]), bool)
         if single.shape != (1,) or single[0] != got[k] or got.shape != (len(Qp),):
             chk.violation("batch-vs-single", dict(vertices=Vp.tolist(), point=Qp[k].tolist(), batch=bool(got[k]), single=single.tolist()))
+        # the same points as a nested list and (when integral) as an integer array
+        sel = [int(x) for x in rng.integers(len(Qp), size=min(4, len(Qp)))]
+        st2, asl = C.excname(lambda: np.asarray(poly.is_inside(Qp[sel].tolist()), bool))
+        if st2 != "ok" or asl.tolist() != [bool(got[i]) for i in sel]:
+            chk.violation("input-form:list", dict(vertices=Vp.tolist(), points=Qp[sel].tolist(), batch=[bool(got[i]) for i in sel], as_list=None if st2 != "ok" else asl.tolist(), error=st2))
+        ints = [i for i in range(len(Qp)) if np.all(Qp[i] == np.round(Qp[i]))][:4]
+        if ints:
+            st2, asi = C.excname(lambda: np.asarray(poly.is_inside(Qp[ints].astype(np.int64)), bool))
+            if st2 != "ok" or asi.tolist() != [bool(got[i]) for i in ints]:
+                chk.violation("input-form:integer-array", dict(vertices=Vp.tolist(), points=Qp[ints].tolist(), batch=[bool(got[i]) for i in ints],
+                                                               as_int=None if st2 != "ok" else asi.tolist(), error=st2))
         # model frame: the xy frame; default normal may be -z (reflex/clockwise first corner) -> kabsch gives diag(-1,1,-1):
         # x is mirrored; membership is unaffected but the tie-breaking frame is, so the faithful model is fed the mirrored frame.
         nrm = np.array(poly.normal)
